@@ -294,3 +294,51 @@ Proof.
   destruct (wide_varint_record num v kt' kv' Hv Hkt' Ht' Hkv' ltac:(lia) H64) as [B2 T2].
   apply (same_meaning_records g s idx m a _ _ c ta _ _ x Hm Ha B1 B2 Ta T1 T2); try reflexivity. exact Hk.
 Qed.
+
+(* ---------------------------------------------------------------- 32-bit kinds narrow first
+   C02, integer narrowing: for a field of kind int32, uint32, sint32 (or an enum) the meaning of a varint record depends
+   only on the low 32 bits of the varint - zig-zag and the sign are applied after narrowing. Two records of the same known
+   field whose varints agree modulo 2^32 (whatever their spelling) are interchangeable anywhere in the input. *)
+Definition narrow32 (k : kind) : bool := match k with KInt32 | KUint32 | KSint32 => true | _ => false end.
+
+Lemma spec_conv_narrows k v1 v2 : narrow32 k = true -> v1 mod 2 ^ 32 = v2 mod 2 ^ 32 -> spec_conv k v1 = spec_conv k v2.
+Proof.
+  intros Hk E. destruct k; try discriminate Hk; cbn [spec_conv].
+  - unfold s32, s. change (2 ^ (32 - 1)) with 2147483648. rewrite <- (Zplus_mod_idemp_l v1), <- (Zplus_mod_idemp_l v2), E. reflexivity.
+  - exact E.
+  - rewrite E. reflexivity.
+Qed.
+
+Lemma apply_token_narrow s rec m t1 t2 slot f v1 v2 x :
+  t_num t1 = t_num t2 -> t_wt t1 = t_wt t2 -> t_pay t1 = PVarint v1 -> t_pay t2 = PVarint v2 ->
+  find_field m (t_num t1) = Some (slot, f) -> f_custom f = CNone ->
+  (fty f = TEnum \/ exists k, fty f = TScalar k /\ narrow32 k = true) -> v1 mod 2 ^ 32 = v2 mod 2 ^ 32 ->
+  apply_token s rec m t1 x = apply_token s rec m t2 x.
+Proof.
+  intros En Ew P1 P2 Hf Hc Hty E. unfold apply_token. rewrite <- En, Hf.
+  assert (Ea : apply_known s rec m slot f t1 (fst x) = apply_known s rec m slot f t2 (fst x)); [|rewrite Ea; reflexivity].
+  assert (Hk : narrow32 (kind_of_ftype (fty f)) = true).
+  { destruct Hty as [Ht|[k [Ht Hk]]]; rewrite Ht; [reflexivity|exact Hk]. }
+  assert (Ets : tok_scalar (kind_of_ftype (fty f)) t1 = tok_scalar (kind_of_ftype (fty f)) t2).
+  { unfold tok_scalar. rewrite P1, P2, <- Ew, (spec_conv_narrows _ v1 v2 Hk E). reflexivity. }
+  unfold apply_known. rewrite Hc.
+  destruct Hty as [Ht|[k [Ht _]]]; rewrite Ht in *; cbn [kind_of_ftype] in *; rewrite Ets, P1, P2; reflexivity.
+Qed.
+
+Theorem narrow32_records_same g s idx m a c ta num slot f v1 v2 kt kv kt' kv' x : nth_error s idx = Some m -> bytes_ok a -> tokens a = Some ta ->
+  valid_number num = true -> find_field m num = Some (slot, f) -> f_custom f = CNone ->
+  (fty f = TEnum \/ exists k, fty f = TScalar k /\ narrow32 k = true) ->
+  0 <= v1 < 2 ^ 64 -> 0 <= v2 < 2 ^ 64 -> v1 mod 2 ^ 32 = v2 mod 2 ^ 32 ->
+  (1 <= kt <= 10)%nat -> num * 8 < 128 ^ Z.of_nat kt -> (1 <= kv <= 10)%nat -> v1 < 128 ^ Z.of_nat kv ->
+  (1 <= kt' <= 10)%nat -> num * 8 < 128 ^ Z.of_nat kt' -> (1 <= kv' <= 10)%nat -> v2 < 128 ^ Z.of_nat kv' ->
+  ref_decode (S g) s idx (a ++ (wide kt (num * 8) ++ wide kv v1) ++ c) x =
+  ref_decode (S g) s idx (a ++ (wide kt' (num * 8) ++ wide kv' v2) ++ c) x.
+Proof.
+  intros Hm Ha Ta Hv Hf Hc Hty H1 H2 E Hkt Ht Hkv Hvv Hkt' Ht' Hkv' Hvv'.
+  destruct (wide_varint_record num v1 kt kv Hv Hkt Ht Hkv (conj (proj1 H1) Hvv) (proj2 H1)) as [B1 T1].
+  destruct (wide_varint_record num v2 kt' kv' Hv Hkt' Ht' Hkv' (conj (proj1 H2) Hvv') (proj2 H2)) as [B2 T2].
+  apply (ref_decode_middle g s idx m a _ _ c ta _ _ x Hm Ha B1 B2 Ta T1 T2).
+  intros [y|]; [|reflexivity]. cbn [fold_opt fold_left].
+  rewrite (apply_token_narrow s _ m {| t_num := num; t_wt := 0; t_pay := PVarint v1; t_raw := wide kv v1 |}
+             {| t_num := num; t_wt := 0; t_pay := PVarint v2; t_raw := wide kv' v2 |} slot f v1 v2 y eq_refl eq_refl eq_refl eq_refl Hf Hc Hty E). reflexivity.
+Qed.
